@@ -44,9 +44,22 @@ class Replay:
             self.proc = subprocess.Popen([self.bin], stdin=subprocess.PIPE, stdout=subprocess.PIPE, text=True)
 
     def run(self, case, timeout=20):
+        """one request to the persistent replay process; a reply that does not arrive within `timeout` seconds means the
+        real code does not terminate on this input (the process is killed and restarted for the next request)"""
+        import select
         self.start()
-        self.proc.stdin.write(json.dumps(case) + '\n')
-        self.proc.stdin.flush()
+        try:
+            self.proc.stdin.write(json.dumps(case) + '\n')
+            self.proc.stdin.flush()
+        except BrokenPipeError:
+            self.proc = None
+            return {'crashed': True}
+        ready, _, _ = select.select([self.proc.stdout], [], [], timeout)
+        if not ready:
+            self.proc.kill()
+            self.proc.wait()
+            self.proc = None
+            return {'timeout': True}
         line = self.proc.stdout.readline()
         if not line:
             self.proc = None
